@@ -287,6 +287,8 @@ def signal_probe(p):
     x = ocp.state(2); u = ocp.control(); w = ocp.variable(); wc = ocp.variable(grid="control"); q = ocp.parameter(); ocp.set_value(q, 0.7)
     s = ocp.variable(grid="bspline", order=1) if kind == "variable" else ocp.parameter(grid="bspline", order=1)
     ocp.set_der(x, ufun("f", 2, [x, u, s, w, wc, q]))
+    if p.get("with_der"):
+        ocp.add_objective(ocp.at_tf(ocp.der(s)))
     N = 2
     if kind == "parameter":
         ocp.set_value(s, ca.DM([[0.3, -0.4, 0.9]]))
@@ -594,7 +596,7 @@ def two_stage_probe(p):
                 b = sp.bound_to(st)
                 orc = Oracle(b, st._method).expected()
                 J = J + orc.J
-                for r in orc.rows:
+                for r in [r_ for r_ in orc.rows if r_["kind"] != "free"]:
                     for q in range(ca.MX(r["r"]).numel()):
                         tags.append((r["kind"], "/".join(str(t) for t in r["tag"] + (q,))))
                     exp.append(ca.vec(ca.MX(r["r"])))
@@ -640,7 +642,7 @@ def clones_of_probe(p):
                 parts.append((b_, aug._stages[j]._method))
                 orc = Oracle(b_, aug._stages[j]._method).expected()
                 J = J + orc.J
-                for r in orc.rows:
+                for r in [r_ for r_ in orc.rows if r_["kind"] != "free"]:
                     for q in range(ca.MX(r["r"]).numel()):
                         tags.append((r["kind"], "/".join(str(t) for t in ("clone%d" % j,) + r["tag"] + (q,))))
                     exp.append(ca.vec(ca.MX(r["r"])))
